@@ -1,137 +1,44 @@
-(* validate_constraints (Model/ProxDispatch.v): the selected mode receives exactly the constraint (and parameter) registered for
-   it, whatever the order in which the keyword arguments are written, and no constraint if none is registered for it. *)
-From Coq Require Import List Arith Lia Bool.
-From TLV Require Import Model.ProxDispatch.
+(* proximal_operator's keyword arguments: the selection is independent of the order in which the keywords are written, and
+   (instance of C11's zvalidate_spec, the authoritative theorem) returns exactly the constraint requested for the selected mode. *)
+From Coq Require Import List QArith Bool Permutation Lia.
+From TLV Require Import Base.Tensor Model.Constraints Proofs.ConstraintsProofsKeys Model.ProxDispatch.
 Import ListNotations.
 
-Section P.
-Context {P : Type}.
-Notation table := (list (option (nat * P))).
-
-Lemma set_at_length : forall (t : table) i x, length (set_at i x t) = length t.
-Proof. induction t as [|y t IH]; intros [|i] x; cbn; auto. Qed.
-Lemma set_at_nth : forall (t : table) i x o, (i < length t)%nat ->
-  nth o (set_at i x t) None = if Nat.eqb o i then x else nth o t None.
+Lemma kind_eqb_eq a b : kind_eqb a b = true <-> a = b.
+Proof. split; [destruct a, b; cbn; intros H; try reflexivity; discriminate H | intros ->; destruct b; reflexivity]. Qed.
+Lemma kind_dec (a b : kind) : {a = b} + {a <> b}.
+Proof. decide equality. Qed.
+Lemma spec_of_in : forall (specs : kwargs) k s, NoDup (map fst specs) -> In (k, s) specs -> spec_of specs k = s.
 Proof.
-  induction t as [|y t IH]; intros [|i] x o Hi; cbn in Hi; try lia.
-  - destruct o; reflexivity.
-  - destruct o as [|o]; [reflexivity|]. cbn [set_at nth]. rewrite IH by lia. reflexivity.
+  induction specs as [|[k0 s0] specs IH]; intros k s Hnd Hin; [destruct Hin|].
+  unfold spec_of. cbn [find fst snd]. inversion Hnd as [|? ? Hnot Hnd']; subst.
+  destruct (kind_eqb k k0) eqn:E.
+  - apply kind_eqb_eq in E. subst k0. destruct Hin as [Eq|Hin]; [injection Eq as ->; reflexivity|].
+    exfalso. apply Hnot. apply (in_map fst) in Hin. exact Hin.
+  - destruct Hin as [Eq|Hin]; [injection Eq as -> ->; rewrite (proj2 (kind_eqb_eq k k) eq_refl) in E; discriminate|].
+    apply (IH k s Hnd' Hin).
 Qed.
-Lemma set_at_nth_out : forall (t : table) i x o, (length t <= i)%nat -> nth o (set_at i x t) None = nth o t None.
+Lemma spec_of_absent : forall (specs : kwargs) k, ~ In k (map fst specs) -> spec_of specs k = ZNone.
 Proof.
-  induction t as [|y t IH]; intros [|i] x o Hi; cbn in Hi; try lia; try reflexivity.
-  destruct o as [|o]; [reflexivity|]. cbn [set_at nth]. apply IH. lia.
+  induction specs as [|[k0 s0] specs IH]; intros k H; [reflexivity|]. unfold spec_of. cbn [find fst snd].
+  destruct (kind_eqb k k0) eqn:E; [apply kind_eqb_eq in E; subst; exfalso; apply H; left; reflexivity|].
+  apply IH. intros Hin. apply H. right. exact Hin.
 Qed.
-
-Lemma find_app' {A} (f : A -> bool) : forall l1 l2, find f (l1 ++ l2) = match find f l1 with Some x => Some x | None => find f l2 end.
-Proof. induction l1 as [|x l1 IH]; intros l2; cbn; [reflexivity|]. destruct (f x); [reflexivity | apply IH]. Qed.
-Lemma dict_fold_length c : forall (es : list (nat * P)) (t : table),
-  length (fold_left (fun t (mp : nat * P) => set_at (fst mp) (Some (c, snd mp)) t) es t) = length t.
-Proof. induction es as [|e es IH]; intros t; cbn; [reflexivity|]. rewrite IH. apply set_at_length. Qed.
-Lemma dict_fold_nth c o : forall (es : list (nat * P)) (t : table), (o < length t)%nat ->
-  nth o (fold_left (fun t (mp : nat * P) => set_at (fst mp) (Some (c, snd mp)) t) es t) None =
-  match find (fun mp : nat * P => Nat.eqb (fst mp) o) (rev es) with Some mp => Some (c, snd mp) | None => nth o t None end.
+(* the keywords may be written in any order *)
+Theorem validate_kwargs_order_irrelevant n order (specs specs' : kwargs) :
+  NoDup (map fst specs) -> Permutation specs specs' -> validate_kwargs n order specs = validate_kwargs n order specs'.
 Proof.
-  induction es as [|e es IH]; intros t Ho; [reflexivity|].
-  cbn [fold_left rev]. rewrite IH by (rewrite set_at_length; exact Ho).
-  rewrite find_app'. destruct (find _ (rev es)); [reflexivity|].
-  cbn [find]. destruct (Nat.ltb (fst e) (length t)) eqn:L.
-  - apply Nat.ltb_lt in L. rewrite set_at_nth by exact L. rewrite (Nat.eqb_sym (fst e) o). destruct (Nat.eqb o (fst e)); reflexivity.
-  - apply Nat.ltb_ge in L. rewrite set_at_nth_out by exact L.
-    destruct (Nat.eqb (fst e) o) eqn:E; [apply Nat.eqb_eq in E; lia | reflexivity].
+  intros Hnd Hp. unfold validate_kwargs. f_equal. unfold zkeywords. apply map_ext. intros k. f_equal.
+  assert (Hnd' : NoDup (map fst specs')) by (eapply Permutation_NoDup; [apply Permutation_map, Hp | exact Hnd]).
+  destruct (in_dec kind_dec k (map fst specs)) as [Hin|Hout].
+  - apply in_map_iff in Hin. destruct Hin as ([k0 s] & <- & Hin). cbn [fst].
+    rewrite (spec_of_in specs k0 s Hnd Hin). symmetry. apply spec_of_in; [exact Hnd' | eapply Permutation_in; eauto].
+  - rewrite (spec_of_absent specs k Hout). symmetry. apply spec_of_absent.
+    intros Hin. apply Hout. eapply Permutation_in; [apply Permutation_sym, Permutation_map, Hp | exact Hin].
 Qed.
-Lemma reg_list_length c : forall (l : list (option P)) i (t : table), length (reg_list c i l t) = length t.
-Proof. induction l as [|e l IH]; intros i t; cbn; [reflexivity|]. rewrite IH. destruct e; [apply set_at_length | reflexivity]. Qed.
-Lemma reg_list_nth c o : forall (l : list (option P)) i (t : table), (o < length t)%nat ->
-  nth o (reg_list c i l t) None =
-  if Nat.leb i o then match nth (o - i) l None with Some p => Some (c, p) | None => nth o t None end else nth o t None.
-Proof.
-  induction l as [|e l IH]; intros i t Ho.
-  - cbn. destruct (Nat.leb i o); [destruct (o - i)%nat|]; reflexivity.
-  - cbn [reg_list]. rewrite IH by (destruct e; rewrite ?set_at_length; exact Ho).
-    destruct (Nat.leb (S i) o) eqn:L1.
-    + apply Nat.leb_le in L1. assert (L2 : Nat.leb i o = true) by (apply Nat.leb_le; lia). rewrite L2.
-      replace (o - i)%nat with (S (o - S i)) by lia. cbn [nth].
-      destruct (nth (o - S i) l None); [reflexivity|].
-      destruct e; [|reflexivity].
-      destruct (Nat.ltb i (length t)) eqn:L3; [apply Nat.ltb_lt in L3; rewrite set_at_nth by exact L3 | apply Nat.ltb_ge in L3; rewrite set_at_nth_out by exact L3; reflexivity].
-      assert (E : Nat.eqb o i = false) by (apply Nat.eqb_neq; lia). rewrite E. reflexivity.
-    + apply Nat.leb_gt in L1. destruct (Nat.leb i o) eqn:L2.
-      * apply Nat.leb_le in L2. assert (o = i) by lia. subst o. rewrite Nat.sub_diag. cbn [nth].
-        destruct e; [|reflexivity]. rewrite set_at_nth by exact Ho. rewrite Nat.eqb_refl. reflexivity.
-      * apply Nat.leb_gt in L2. destruct e; [|reflexivity].
-        destruct (Nat.ltb i (length t)) eqn:L3; [apply Nat.ltb_lt in L3; rewrite set_at_nth by exact L3 | apply Nat.ltb_ge in L3; rewrite set_at_nth_out by exact L3; reflexivity].
-        assert (E : Nat.eqb o i = false) by (apply Nat.eqb_neq; lia). rewrite E. reflexivity.
-Qed.
-
-Lemma nth_map_const {A B} (y : B) : forall (l : list A) o d, (o < length l)%nat -> nth o (map (fun _ => y) l) d = y.
-Proof. induction l as [|x l IH]; intros o d Ho; [cbn in Ho; lia|]. destruct o; [reflexivity|]. cbn [map nth]. apply IH. cbn in Ho; lia. Qed.
-Lemma register_length (t : table) cs : length (register t cs) = length t.
-Proof. destruct cs as [c [es|l|p]]; cbn; [apply dict_fold_length | apply reg_list_length | apply map_length]. Qed.
-(* one keyword argument: the selected mode is overwritten iff the argument names it *)
-Lemma register_nth (t : table) c s o : (o < length t)%nat ->
-  nth o (register t (c, s)) None = match param_at s o with Some p => Some (c, p) | None => nth o t None end.
-Proof.
-  intros Ho. destruct s as [es|l|p]; cbn [register param_at].
-  - rewrite dict_fold_nth by exact Ho. destruct (find _ (rev es)); reflexivity.
-  - rewrite reg_list_nth by exact Ho. cbn. rewrite Nat.sub_0_r. reflexivity.
-  - apply nth_map_const. exact Ho.
-Qed.
-
-Lemma fold_register_length : forall L (t : table), length (fold_left register L t) = length t.
-Proof. induction L as [|x L IH]; intros t; cbn; [reflexivity|]. rewrite IH. apply register_length. Qed.
-Lemma fold_none o : forall L (t : table), (o < length t)%nat ->
-  (forall c s, In (c, s) L -> param_at s o = None) -> nth o (fold_left register L t) None = nth o t None.
-Proof.
-  induction L as [|[c s] L IH]; intros t Ho H; [reflexivity|]. cbn [fold_left].
-  rewrite IH; [| rewrite register_length; exact Ho | intros c' s' Hin; apply (H c' s'); right; exact Hin].
-  rewrite register_nth by exact Ho. rewrite (H c s (or_introl eq_refl)). reflexivity.
-Qed.
-Lemma fold_keep o c s p : param_at s o = Some p -> forall L (t : table), (o < length t)%nat ->
-  (forall c' s', In (c', s') L -> param_at s' o <> None -> (c', s') = (c, s)) ->
-  nth o t None = Some (c, p) -> nth o (fold_left register L t) None = Some (c, p).
-Proof.
-  intros Hp. induction L as [|[c' s'] L IH]; intros t Ho H Ht; [exact Ht|]. cbn [fold_left].
-  apply IH; [rewrite register_length; exact Ho | intros c2 s2 Hin; apply H; right; exact Hin|].
-  rewrite register_nth by exact Ho. destruct (param_at s' o) as [p'|] eqn:E; [|exact Ht].
-  assert (Eq : (c', s') = (c, s)) by (apply H; [left; reflexivity | rewrite E; discriminate]).
-  injection Eq as -> ->. rewrite Hp in E. injection E as ->. reflexivity.
-Qed.
-Lemma fold_unique o c s p : param_at s o = Some p -> forall L (t : table), (o < length t)%nat ->
-  (forall c' s', In (c', s') L -> param_at s' o <> None -> (c', s') = (c, s)) ->
-  In (c, s) L -> nth o (fold_left register L t) None = Some (c, p).
-Proof.
-  intros Hp. induction L as [|[c' s'] L IH]; intros t Ho H Hin; [destruct Hin|]. cbn [fold_left].
-  destruct Hin as [Eq|Hin].
-  - injection Eq as -> ->. apply (fold_keep o c s p Hp); [rewrite register_length; exact Ho | intros c2 s2 Hin2; apply H; right; exact Hin2|].
-    rewrite register_nth by exact Ho. rewrite Hp. reflexivity.
-  - apply IH; [rewrite register_length; exact Ho | intros c2 s2 Hin2; apply H; right; exact Hin2 | exact Hin].
-Qed.
-
-Lemma insert_c_in x y : forall l : list (nat * cspec P), In x (insert_c y l) <-> x = y \/ In x l.
-Proof.
-  induction l as [|z l IH]; cbn [insert_c]; [cbn; intuition|].
-  destruct (Nat.leb (fst y) (fst z)); cbn [In]; [intuition|]. rewrite IH. cbn. intuition.
-Qed.
-Lemma sort_c_in x : forall l : list (nat * cspec P), In x (sort_c l) <-> In x l.
-Proof. induction l as [|y l IH]; [reflexivity|]. cbn [sort_c fold_right]. fold (sort_c l). rewrite insert_c_in, IH. cbn. intuition. Qed.
-
-(* ---------- validate_constraints *)
-Theorem validate_selected n order (specs : list (nat * cspec P)) c s p : (order < n)%nat ->
-  In (c, s) specs -> param_at s order = Some p ->
-  (forall c' s', In (c', s') specs -> param_at s' order <> None -> (c', s') = (c, s)) ->
-  validate n order specs = Some (c, p).
-Proof.
-  intros Ho Hin Hp Huniq. unfold validate.
-  apply (fold_unique order c s p Hp); [rewrite repeat_length; exact Ho | | apply sort_c_in; exact Hin].
-  intros c' s' Hin'. apply Huniq. apply sort_c_in. exact Hin'.
-Qed.
-Theorem validate_unconstrained n order (specs : list (nat * cspec P)) :
-  (forall c s, In (c, s) specs -> param_at s order = None) -> validate n order specs = @None (nat * P).
-Proof.
-  intros H. unfold validate. destruct (Nat.ltb order n) eqn:L.
-  - apply Nat.ltb_lt in L. rewrite fold_none; [| rewrite repeat_length; exact L | intros c s Hin; apply (H c s); apply sort_c_in; exact Hin].
-    apply nth_repeat.
-  - apply Nat.ltb_ge in L. apply nth_overflow. rewrite fold_register_length, repeat_length. exact L.
-Qed.
-End P.
+(* what is selected (C11's theorem at the instance used by the C12 correspondence) *)
+Theorem validate_kwargs_spec n order (specs : kwargs) c : validate_kwargs n order specs = Ok c ->
+  (order < n)%nat /\
+  (forall k p, c = Some (k, p) <-> exists s, In (k, s) (zkeywords (spec_of specs)) /\ zrequested qtruthy n s order p) /\
+  (c = None <-> forall k s p, In (k, s) (zkeywords (spec_of specs)) -> ~ zrequested qtruthy n s order p).
+Proof. apply zvalidate_spec. Qed.
